@@ -13,7 +13,8 @@
 (***************************************************************************)
 EXTENDS Naturals, Sequences, FiniteSets, TLC
 
-CONSTANTS Base,     \* base configuration (record)
+CONSTANTS Bases,    \* set of base configurations (records): one per message family, so that pairs of deviations reach
+                    \* e.g. "several covariances in different frames inside one ephemeris"
           Dims      \* dimension name -> set of alternative values
 
 VARIABLES cfg, path, stage, token
@@ -24,8 +25,8 @@ Formats == {"kvn", "xml"}
 Paths == [f1 : Formats, src : {"arg", "config"}, f2 : Formats]
 
 Init ==
-  /\ \E a \in DOMAIN Dims, b \in DOMAIN Dims : \E va \in Dims[a], vb \in Dims[b] :
-        cfg = [[Base EXCEPT ![a] = va] EXCEPT ![b] = vb]
+  /\ \E base \in Bases : \E a \in DOMAIN Dims, b \in DOMAIN Dims : \E va \in Dims[a], vb \in Dims[b] :
+        cfg = [[base EXCEPT ![a] = va] EXCEPT ![b] = vb]
   /\ path \in Paths
   /\ stage = "new" /\ token = 0
 
